@@ -89,6 +89,10 @@ void suite_isal(int tier) {
                 int r[16], x[16], nr = 0, nx = 0;
                 for (int i = 0; i < n; i++) if ((g >> i) & 1) { if (nr == 0 || rnd(2)) r[nr++] = i; else x[nx++] = i; }
                 r[nr] = -1; x[nx] = -1;
+                /* callers list the indexes in any order */
+                if (rnd(2)) { for (int i = nr - 1; i > 0; i--) { int j = (int)rnd(i + 1); int t2 = r[i]; r[i] = r[j]; r[j] = t2; }
+                              for (int i = nx - 1; i > 0; i--) { int j = (int)rnd(i + 1); int t2 = x[i]; x[i] = x[j]; x[j] = t2; }
+                              stat_add("isal.need_shuffled_lists", 1); }
                 int outl[80];
                 int rc = op_need(c, r, x, outl, 0);
                 if (rc == 0) {
